@@ -581,7 +581,10 @@ def script_case(run, seed, idx):
     threaded = bool(idx % 2)                       # default driver (reader + corrector + one worker thread per threshold)
     # a second, much higher threshold in the same run (given unsorted and with a duplicate): cuts away part of every blob
     thr2 = float(int(r.integers(200, 60000 if dtype == "uint16" else 900000))) if (idx // 2) % 2 else None
-    desc = dict(index=idx, route="scripts/peaksearch.py", shape=shape, nframes=nfr, cls=cls, threshold=thr, omega_step=step,
+    # where the frame angle is in the header: the default "Omega" key, or a motor named with --omega_motor (alone, or
+    # next to an "Omega" key holding something else); own stream so that it is independent of class / driver / thresholds
+    motor = ["Omega", "diffrz-only", "diffrz-and-stale-Omega"][int(rng(seed, "C12", "motor", idx).integers(3))]
+    desc = dict(index=idx, route="scripts/peaksearch.py", header_angle=motor, shape=shape, nframes=nfr, cls=cls, threshold=thr, omega_step=step,
                 dtype=dtype, threaded=threaded, second_threshold=thr2)
     lab3, comps = ref_components(vol, inten, omegas)
     run.case(("script", shape, nfr, cls, hash(vol.tobytes())), nontrivial=len(comps) >= 2, sample=desc if idx < 2 else None)
@@ -592,9 +595,14 @@ def script_case(run, seed, idx):
     d = tempfile.mkdtemp(prefix="c12s_", dir=os.path.join(WORK, "tmp"))
     try:
         for k in range(nfr):
-            im = fabio.edfimage.EdfImage(data=inten[k], header={"Omega": "%r" % float(omegas[k])})
+            hd = {"Omega": "%r" % float(omegas[k])}
+            if motor == "diffrz-only":
+                hd = {"diffrz": "%r" % float(omegas[k])}
+            elif motor == "diffrz-and-stale-Omega":
+                hd = {"diffrz": "%r" % float(omegas[k]), "Omega": "12.5"}
+            im = fabio.edfimage.EdfImage(data=inten[k], header=hd)
             im.write(os.path.join(d, "img%04d.edf" % k))
-        from_header = bool(r.random() < 0.5)
+        from_header = bool(r.random() < 0.5) or motor != "Omega"
         cmd = [PY, os.path.join(REPO, "scripts", "peaksearch.py"), "-n", "img", "-F", ".edf", "-f", "0", "-l", str(nfr - 1),
                "-o", "pk.spt", "-p", "Y"]
         if thr2 is None:
@@ -603,6 +611,8 @@ def script_case(run, seed, idx):
             cmd += ["-t", str(thr2), "-t", str(thr), "-t", str(thr2)]
         if not threaded:
             cmd += ["--singleThread"]
+        if motor != "Omega":
+            cmd += ["--omega_motor", "diffrz"]
         if not from_header:
             cmd += ["--OmegaOverRide", "-T", repr(om0), "-S", repr(step)]
         try:
@@ -611,6 +621,7 @@ def script_case(run, seed, idx):
             V("failed", "scripts/peaksearch.py did not finish within 600 s")
             return
         run.count("peaksearch_script_runs")
+        run.count("peaksearch_script_header_angle:%s:%s" % (motor, "threaded" if threaded else "single-thread"))
         run.count("peaksearch_script_runs_threaded" if threaded else "peaksearch_script_runs_single_thread")
         for t in [thr] + ([thr2] if thr2 is not None else []):
             flt = os.path.join(d, "pk_t%d.flt" % int(t))
